@@ -1,6 +1,6 @@
 SPECIFICATION Spec
 CONSTANTS
-  ClassSet = {"a", "amp", "quot", "sp", "tab", "nl", "latin1", "cjk", "astral"}
+  ClassSet = {"a", "amp", "quot", "sp", "tab", "nl", "latin1", "cjk", "astral", "bom"}
   MaxChars = 3
 INVARIANT Dump
 CHECK_DEADLOCK FALSE
